@@ -51,7 +51,7 @@ func (d gdefDesc) line() string {
 		}
 		sets = l
 	}
-	return "!" + vlib.Line(vlib.Atom("gdef"), cd(d.hasGC, d.gc), cd(d.hasM, d.mac), sets)
+	return vlib.Line(vlib.Atom("gdef-enc"), cd(d.hasGC, d.gc), cd(d.hasM, d.mac), sets)
 }
 
 func (d gdefDesc) build() *gdef.Table {
@@ -130,6 +130,47 @@ func gdefCase(d gdefDesc) (impl, fail string) {
 		}
 		return "panic", ""
 	}
+	okImpl := vlib.Str(vlib.L(vlib.Atom("ok"), vlib.Hex(enc)))
+	impl, fail = gdefOracle(d, t, enc)
+	return okImpl, fail
+}
+
+func gdefObs(t *gdef.Table) vlib.Sx {
+	cd := func(c classdef.Table) vlib.Sx {
+		if c == nil {
+			return vlib.Atom("nil")
+		}
+		return crunsSx(cdPairs(c))
+	}
+	var sets vlib.Sx = vlib.Atom("nil")
+	if t.MarkGlyphSets != nil {
+		l := vlib.List{}
+		for _, s := range t.MarkGlyphSets {
+			gl := make([]int, 0, len(s))
+			for g := range s {
+				gl = append(gl, int(g))
+			}
+			sort.Ints(gl)
+			l = append(l, setRuns(gl))
+		}
+		sets = l
+	}
+	return vlib.L(vlib.Atom("ok"), cd(t.GlyphClass), cd(t.MarkAttachClass), sets)
+}
+
+func gdefRead(data []byte) (impl, fail string) {
+	var back *gdef.Table
+	var err error
+	if pp, msg := guard(func() { back, err = gdef.Read(bytes.NewReader(data)) }); pp {
+		return "panic", "gdef.Read panics: " + msg
+	}
+	if err != nil {
+		return "err", ""
+	}
+	return vlib.Str(gdefObs(back)), ""
+}
+
+func gdefOracle(d gdefDesc, t *gdef.Table, enc []byte) (impl, fail string) {
 	var back *gdef.Table
 	var err error
 	if p2, msg := guard(func() { back, err = gdef.Read(bytes.NewReader(enc)) }); p2 {
@@ -256,14 +297,41 @@ func gdefDescOf(items []vlib.Sx) (gdefDesc, error) {
 }
 
 func genGdefs(run *vlib.Run, r *vlib.Rand, tier string) {
+	var encs [][]byte
 	add := func(d gdefDesc, lb ...string) {
 		line := d.line()
 		impl, fail := gdefCase(d)
-		idx := run.Add(line, impl, d.hasGC, append([]string{"gdef(oracle only)", "gdef:" + impl}, lb...)...)
+		idx := run.Add(line, impl, d.hasGC, append([]string{"gdef-enc", "gdef-enc:" + impl[:min(len(impl), 3)]}, lb...)...)
 		if fail != "" {
 			run.Fail(idx, line, fail, "c08-gdef")
 		}
+		if len(impl) > 6 && len(impl) < 900 && impl[:4] == "(ok " {
+			var enc []byte
+			t := d.build()
+			guard(func() { enc = t.Encode() })
+			encs = append(encs, enc)
+		}
 	}
+	defer func() {
+		for k := 0; k < vlib.Count(tier, 400, 8000) && len(encs) > 0; k++ {
+			e := vlib.Pick(r, encs)
+			data := e
+			lb := "gdef-read:valid"
+			if r.Chance(3, 4) {
+				data, lb = mutate(r, e)
+			}
+			if r.Chance(1, 10) && len(data) >= 4 { // other versions
+				data = append([]byte(nil), data...)
+				data[3] = byte(vlib.Pick(r, []int{0, 1, 2, 3, 4}))
+			}
+			line := vlib.Line(vlib.Atom("gdef-read"), vlib.Hex(data))
+			impl, fail := gdefRead(data)
+			idx := run.Add(line, impl, len(data) >= 12, "gdef-read", lb, "gdef-read:"+impl[:min(len(impl), 3)])
+			if fail != "" {
+				run.Fail(idx, line, fail, "c08-gdef")
+			}
+		}
+	}()
 	add(gdefDesc{})
 	add(gdefDesc{hasGC: true})
 	add(gdefDesc{hasSets: true})
